@@ -29,12 +29,13 @@ CLAIMED['C17'] = (
 CLAIMED['C12'] = (
     'inductive step decided by the solver: from every valid vector (K<=3 quick / 4 thorough items, fixed- and '
     'variable-size items, MIN/MAX bounds themselves symbolic) one operation with symbolic arguments (constructor, '
-    'append, insert, extend, +=, pop, remove, del[i], del[a:b], v[i]=x, v[a:b]=xs, reverse, clear) leaves contents == '
+    'append, insert, extend, +=, pop, remove, del[i], del[a:b], del[a:b:s], v[i]=x, v[a:b]=xs, v[a:b:s]=xs with a list, a '
+    'one-shot iterator or a tuple on the right, reverse, clear) leaves contents == '
     'plain-list model, recorded size == sum of item sizes within bounds, refuses exactly when the result would leave '
     'the bounds and then changes nothing; one step from an arbitrary invariant state covers histories of any length. '
     'Native side condition: every library vector class x seed vectors, recorded size == encoded body == prefix',
     'harness subclasses of Vector/VectorParsable with param objects built without their constructor; item values '
-    '0..8; slice positions -4..4; library classes only through their seed vectors (concrete)', '5 C12')
+    '0..8; slice positions -4..4, steps 1, 2, -1; library classes only through their seed vectors (concrete)', '5 C12')
 
 CLAIMED['C03'] = (
     'for every framing class (TLS record, SSL 2.0 record, TLS handshake messages, SSH packets and banner, MySQL, TPKT, '
@@ -156,7 +157,9 @@ CLAIMED['C15'] = (
     '- protocol version, the cipher suite at each position (known, unknown, GREASE, SCSV), the type of an unparsed / '
     'unknown / GREASE extension at each position, a supported group, a point format, with and without the groups / '
     'point-format extensions - parse(b).ja3() equals the reference item by item and is unchanged by compose + parse; '
-    'hellos carrying every extension vector of the seed corpus are compared natively',
+    'one step of parse history with a symbolic integer (first a psk mode, then extension type and group of hello B); '
+    'hellos carrying every extension vector of the seed corpus, and all 0..255 through one- and two-byte code spaces '
+    'in one process (both orders), are compared natively',
     'S-str: str() of a symbolic int is an opaque token, the strings are compared item-wise as integers; quick tier '
     'covers the code ranges holding SCSV, GREASE and common values plus a seed-rotated range (thorough: whole space); '
     'extension bodies of types the library parses in detail come from the seed corpus (concrete)', '5 C15')
